@@ -82,3 +82,4 @@ func VerifC14_Par4_L9() { verifC14Catch(4, 9, true) }
 func VerifC14_Par3_L9() { verifC14Catch(3, 9, true) }
 func VerifC14_Par1_L4() { verifC14Catch(1, 4, true) }
 func VerifC14_Multi3_L5() { verifC14Catch(3, 5, false) }
+func VerifC14_Par2_L5() { verifC14Catch(2, 5, true) }
